@@ -1,7 +1,7 @@
 """C07 — names: definition, lookup and quoting behave as documented for every type."""
 import random
 import vcheck
-from vcheck import Stream, sx_parse
+from vcheck import Stream, sx_parse, sx_str
 from gen.stategen import *
 from gen.pools import fbits, rand_i32, rand_f32
 
@@ -58,8 +58,32 @@ def streams(seed, tier):
             prog += op(rng, modelled)
         # 15%: a NAME.QUOTE is already pending when the program starts (the previous program on this state ended with one)
         cases.append(case_run(rng.randrange(2), state(exec=[L(*prog)], quote=rng.random() < 0.15, bind=([("X", F(fbits(1.0)))] if rng.random() < 0.2 else [])), 1, 0))
-    return [Stream("define-use-quote", "run", "run.check", cases,
+    one = []
+    for k, t in enumerate(["( NAME.QUOTE NAME.RANDBOUNDNAME X X )", "( NAME.RANDBOUNDNAME NAME.QUOTE X X )", "( NAME.QUOTE NAME.RANDBOUNDNAME 1 X )", "( NAME.RANDBOUNDNAME X )",
+                           "( NAME.QUOTE NAME.RANDBOUNDNAME NAME.DUP X 9 INTEGER.DEFINE X )", "( NAME.RANDBOUNDNAME CODE.DEFINITION NAME.QUOTE NAME.RANDBOUNDNAME X )"]):
+        for v in (Z(7), L(Z(1), Z(2)), N("X")):
+            for q in (False, True):
+                cc = list(DEFAULT_CFG); cc[4] = 40
+                one.append(case_run(k % 2, state(exec=parse_prog(t, modelled), bind=[("X", v)], quote=q, cfg=cc), 1, 0))
+    extra_streams = [Stream("single-binding-randboundname", "run", "run.check", one,
+                            "programs around NAME.RANDBOUNDNAME with exactly ONE binding (the draw is then determined): it pushes the bound name and leaves a pending NAME.QUOTE pending")]
+    return text_streams(seed, tier) + extra_streams + [Stream("define-use-quote", "run", "run.check", cases,
                    "random interleavings (1..11 operations) of define / use / quote / redefine / CODE.DEFINITION over 8 value types x 3 names (values include bare names: aliases), executed as programs by run(); whole final state compared (typed stacks, NAME, name_bindings sorted, quote_name)")]
+
+
+def text_streams(seed, tier):
+    """define / use / quote programs given as TEXT with names the lexical rules must leave alone (dotted upper-case, brackets, underscores)"""
+    rng = random.Random(seed + 7)
+    odd = ["POINT.X", "MY.VAR", "A.B", "x[3]", "in_f", "_7", "p(1"]
+    cases = []
+    for k in range({"quick": 300, "thorough": 3000, "search": 1000}[tier]):
+        a, b = rng.sample(odd, 2)
+        toks = rng.choice([[a, "7", "INTEGER.DEFINE", a, a], ["NAME.QUOTE", a, "TRUE", "BOOLEAN.DEFINE", a, b], [a, "EXEC.DEFINE", b, a, b],
+                           ["CODE.QUOTE", "(", "1", b, ")", "NAME.QUOTE", a, "CODE.DEFINE", "NAME.QUOTE", a, "CODE.DEFINITION", a], [b, a, "NAME.=", a, "NAME.DUP"]])
+        text = "( " + " ".join(toks) + " )"
+        cases.append(sx_str([k % 2, [], [ord(c) for c in text], state(bind=([(b, Z(3))] if k % 3 == 0 else [])), []]))
+    return [Stream("names-in-program-text", "parse.st", "parse.st.check", cases,
+                   "define / use / quote programs written as text with names such as POINT.X, MY.VAR, x[3], in_f, _7: the parser hands them to the interpreter as names")]
 
 
 TECHNIQUE = "Coq theorems about the identifier case of step, the generic DEFINE and the binding table (finite map, last-writer-wins over arbitrary histories; quote flag invariant over non-identifier steps via the footprint theorem) + differential correspondence of define/use/quote programs"
